@@ -28,10 +28,10 @@ impl C05 {
             tier,
             seed,
             n_tiny,
-            n_hdr: scaled(tier.pick(400, 20_000), scale),
-            n_gen: scaled(tier.pick(3_000, 150_000), scale),
-            n_comp: scaled(tier.pick(1_200, 60_000), scale),
-            n_shape: scaled(tier.pick(64, 1_600), scale),
+            n_hdr: scaled(tier.pick(2_000, 50_000), scale),
+            n_gen: scaled(tier.pick(20_000, 500_000), scale),
+            n_comp: scaled(tier.pick(8_000, 200_000), scale),
+            n_shape: scaled(tier.pick(256, 6_400), scale),
         }
     }
 
